@@ -23,6 +23,10 @@ b2a_hex = hexlify
 
 
 def _nibble(it, exc):
+    from ..seq import hex_source
+    src = hex_source(it)
+    if src is not None:
+        return src
     if isinstance(it, int):
         c = chr(it)
         if c in "0123456789abcdefABCDEF":
